@@ -386,6 +386,30 @@ func (ctx *checkCtx) report(total *JobResult, update, verbose bool, start time.T
 		}
 		knownLines = append(knownLines, fmt.Sprintf("KNOWN-FINDING: property=%s %s [%s%s]", ctx.prop, what, knownFirst[what], extra))
 	}
+	// Findings that no obligation expresses (recorded with the history that
+	// fails): the canary is replayed on the real code; the line is printed while
+	// it still reproduces. This reports a listed defect, it decides nothing.
+	for _, k := range knownList {
+		if k.Obligation != "" || k.Property != ctx.prop || k.Canary == "" {
+			continue
+		}
+		path := filepath.Join(verifDir(), "canaries", k.Canary)
+		data, err := os.ReadFile(path)
+		if err != nil {
+			engineErrors = append(engineErrors, "known finding without canary file: "+k.Canary)
+			continue
+		}
+		dir := "."
+		if i := strings.Index(string(data), "gv-replay-dir:"); i >= 0 {
+			f := strings.Fields(string(data)[i+len("gv-replay-dir:"):])
+			if len(f) > 0 {
+				dir = f[0]
+			}
+		}
+		if _, outcome := runReplay(path, dir); outcome == "reproduced" {
+			knownLines = append(knownLines, fmt.Sprintf("KNOWN-FINDING: property=%s %s [history: %s; canary %s]", ctx.prop, k.What, k.History, k.Canary))
+		}
+	}
 	// baseline obligations that vanished: if the same function now has new
 	// undischarged obligations of the same kind, the proof is broken.
 	var vanished []string
